@@ -136,8 +136,11 @@ def collect(ck, tier, ex):
     """run every script through harness + driver + oracles; cached by content hash (same tree + seed ⇒ same result)"""
     res = {"cases": 0, "lines": 0, "nontrivial": 0, "mismatches": [], "oracle": [], "aborts": [], "samples": [], "stats": {}}
     bins = {}
-    for v in list(VARIANTS) + list(ORACLE_ONLY):
-        ok, hbin, log = vlib.build_harness("h2_v%d" % v, ["h2_backend.cpp"], extra_flags=["-fno-access-control", "-DH2_VARIANT=%d" % v])
+    allv = list(VARIANTS) + list(ORACLE_ONLY)
+    with ThreadPoolExecutor(max_workers=4) as pool:
+        built = list(pool.map(lambda v: vlib.build_harness("h2_v%d" % v, ["h2_backend.cpp"],
+                                                           extra_flags=["-fno-access-control", "-DH2_VARIANT=%d" % v]), allv))
+    for v, (ok, hbin, log) in zip(allv, built):
         if not ok:
             res["build_error"] = log
             return res
